@@ -284,14 +284,22 @@ func c09Scenarios(disk bool) []*schedScenario {
 		w.Lookup(listed, c.chain(listed))
 	}
 	hs := schedOp{Name: "hs(listed)", Fn: func(x *schedCtx) string {
-		return "hs=" + x.W[0].Lookup(listed, c.chain(listed)).String()
+		v := x.W[0].Lookup(listed, c.chain(listed)).String()
+		if v == "OK" {
+			// why was it accepted? either the lookup still found the entry (and skipped it) or the entry was gone
+			if vsched.PassedSite("RLock@crlrepository.(*Repository).checkCrl") {
+				return "hs=OK(entry-found-but-skipped)"
+			}
+			return "hs=OK(entry-gone)"
+		}
+		return "hs=" + v
 	}}
 	scs := []*schedScenario{
-		{Name: name("f1-handshake-vs-cleanup"), Setup: setup, Ops: []schedOp{hs, cleanupOp(0)}},
+		{Name: name("f1-handshake-vs-cleanup"), Setup: setup, Ops: []schedOp{hs, cleanupOp(0)}, Cfg: vsched.Config{LogSites: true}},
 	}
 	if disk {
 		// refresh whose directory swap fails persistently (every rename of the new database into place errors) || handshake
-		scs = append(scs, &schedScenario{Name: name("f2-failed-swap-vs-handshake"),
+		scs = append(scs, &schedScenario{Name: name("f2-failed-swap-vs-handshake"), Cfg: vsched.Config{LogSites: true},
 			Setup: func(x *schedCtx) {
 				setup(x)
 				x.W[0].Net.Serve(urlA, "v2", c.vers[2])
@@ -334,8 +342,11 @@ func findC09Scenario(name string) *schedScenario {
 // c09JudgeSched: the listed certificate is never accepted while the validator lives.
 func c09JudgeSched(obs []string) (string, string) {
 	for _, o := range obs {
-		if o == "hs=OK" {
-			return "C09|listed-accepted-during-storage-failure", "a handshake overlapping a storage failure / shutdown accepted the listed certificate"
+		if o == "hs=OK(entry-gone)" {
+			return "C09|listed-accepted-during-storage-failure", "a handshake overlapping a storage failure / shutdown accepted the listed certificate (the repository entry was already gone when it looked)"
+		}
+		if o == "hs=OK(entry-found-but-skipped)" {
+			return "C09|listed-accepted-entry-without-store-skipped", "a handshake overlapping a storage failure / shutdown found the entry, could not use its store and accepted the listed certificate"
 		}
 		if o == "hs=PANIC" || strings.HasSuffix(o, "post=PANIC") {
 			return "C09|panic-during-storage-failure", "a handshake overlapping a storage failure / shutdown panicked"
